@@ -30,7 +30,7 @@ class Theme:
     strs = ["0", "a", "ab", "b", "ba", "c"] + ["d%03d" % i for i in range(300)]
     nums = [-2, -1, 0, 1, 2.5, 10] + [11.25 + 3 * i for i in range(300)]     # hash(-2) == hash(-1) in CPython; 0 == False, 1 == True
     tagkeys = ["k", "k_1", "k_1_x"]       # spec key i  -> tagkeys[i-1]; each a substring of the next, with underscores
-    fieldkeys = ["f", "f_1", "f_1_x"]
+    fieldkeys = ["k", "k_1", "v_1_x"]     # the first two ALSO name tags: a tag and a field of the same name are different things
     regex = True                            # theme realises the regex tables
 
     def __init__(self):
@@ -202,14 +202,20 @@ class Theme:
             return self.query(tf, q["a"], cache) & self.query(tf, q["b"], cache)
         if k == "or":
             return self.query(tf, q["a"], cache) | self.query(tf, q["b"], cache)
-        base = {"time": tf.TimeQuery, "meas": tf.MeasurementQuery, "tag": tf.TagQuery, "field": tf.FieldQuery}[k]()
+        cls = {"time": tf.TimeQuery, "meas": tf.MeasurementQuery, "tag": tf.TagQuery, "field": tf.FieldQuery}[k]
+        # builder objects (`TagQuery()`, `TagQuery().k`) are kept and used again for later queries, the way a program
+        # keeps `City = TagQuery().city` around: whatever a builder remembers from an earlier use must not leak into a later one
+        base = self._cached(cache, ("builder", k), cls)
         op = q["op"]
         if op == "noop":
             return base.noop()
         if q.get("mf") == 9:          # map placed before the key: f(dict) -> dict
             base = base.map(self._cached(cache, ("map", k, 9), lambda: (lambda d: d)))
         if q["key"]:
-            base = base[self.key(k, q["key"])]
+            if q.get("mf") == 9:
+                base = base[self.key(k, q["key"])]
+            else:
+                base = self._cached(cache, ("builder", k, q["key"]), lambda b=base: b[self.key(k, q["key"])])
         if q.get("key2"):
             base = base[self.key(k, q["key2"])]
         if q.get("mf") and q["mf"] != 9:
